@@ -207,6 +207,10 @@ class PoolWorldB(object):
                             f = ch.choose(3, 'rcpt-reply', 'data')
                             if f:
                                 p.script['%s@%d' % (stage, txn)] = {1: '4', 2: '5'}[f]
+                        if stage.startswith('eod') and cfg.get('rcpt_faults'):
+                            f = ch.choose(3, 'eod-reply', 'data')
+                            if f:
+                                p.script['%s@%d' % (stage, txn)] = {1: '4', 2: '5'}[f]
                         if stage.startswith('eod') and ch.choose(2, 'eod-silent', 'data') == 1:
                             p.script['%s@%d' % (stage, txn)] = 'stall'                 # the peer goes silent after the final dot
                         if stage == 'rset' and ch.choose(2, 'rset-reply-late', 'data') == 1:
